@@ -799,6 +799,73 @@ func r10PartialTruncate(c *RuleCtx) {
 				"slice field(s) "+strings.Join(missing, ", ")+" are not truncated with the others: they keep the previous use's elements and grow with every reuse (values of one document attributed to the next)", props, nil)
 		})
 	}
+	// in-place form: the element is truncated where it sits (`e := &xs[i]; e.vals = e.vals[:0]; e.typs =
+	// e.typs[:0]`): the stores through one element address that truncate some slice fields truncate all
+	for _, fn := range c.p.ZapFuncs {
+		eachInstr(fn, func(_ *ssa.BasicBlock, in ssa.Instruction) {
+			ia, ok := in.(*ssa.IndexAddr)
+			if !ok {
+				return
+			}
+			st, ok := derefType(ia.Type()).Underlying().(*types.Struct)
+			if !ok {
+				return
+			}
+			var sliceFields []int
+			for i := 0; i < st.NumFields(); i++ {
+				if _, isSlice := st.Field(i).Type().Underlying().(*types.Slice); isSlice {
+					sliceFields = append(sliceFields, i)
+				}
+			}
+			if len(sliceFields) < 2 {
+				return
+			}
+			truncated := map[int]bool{}
+			var at ssa.Instruction
+			for _, r := range *ia.Referrers() {
+				fa, ok := r.(*ssa.FieldAddr)
+				if !ok {
+					continue
+				}
+				for _, r2 := range *fa.Referrers() {
+					sto, ok := r2.(*ssa.Store)
+					if !ok || sto.Addr != ssa.Value(fa) {
+						continue
+					}
+					sl, ok := sto.Val.(*ssa.Slice)
+					if !ok || sl.High == nil {
+						continue
+					}
+					if k, ok := constInt64(sl.High); !ok || k != 0 {
+						continue
+					}
+					if u, ok := sl.X.(*ssa.UnOp); ok {
+						if fa2, ok := u.X.(*ssa.FieldAddr); ok && fa2.X == ssa.Value(ia) && fa2.Field == fa.Field {
+							truncated[fa.Field] = true
+							at = sto
+						}
+					}
+				}
+			}
+			if len(truncated) == 0 {
+				return
+			}
+			n++
+			var missing []string
+			for _, i := range sliceFields {
+				if !truncated[i] {
+					missing = append(missing, st.Field(i).Name())
+				}
+			}
+			name := "?"
+			if nt := namedOf(derefType(ia.Type())); nt != nil {
+				name = nt.Obj().Name()
+			}
+			c.add(statusOf(len(missing) == 0), fmt.Sprintf("partial-truncate/%s/%s/in-place", funcShortName(fn), name), c.p.instrPos(at),
+				"a "+name+" recycled where it sits in its container has every slice field truncated",
+				"slice field(s) "+strings.Join(missing, ", ")+" are not truncated with the others: they keep the previous use's elements and grow with every reuse (values of one document attributed to the next)", props, nil)
+		})
+	}
 	// method form: a function that truncates a slice field of a struct it reaches
 	// through a pointer (a `reset()` of an accumulator type the pinned tree did
 	// not have) must assign every slice field of that struct
